@@ -327,6 +327,71 @@ def run(ctx):
                              f"and AR valid together the acknowledged channel is not the served one; e.g. "
                              f"{B.counterexample(B.And(st, B.A(f'axi_lite.{ch}.valid'), fr), B.And(st, sf)) if fr is not None and sf is not None else ''}", 0)
 
+    # ================================================================ B11 AXI-Lite up-converter lanes
+    ctx.rule("B11", "AXILiteUpConverter: the narrow write data / strobes are placed on the lane named by the write address presented "
+                    "in the same cycle (selector combinationally fed by aw.addr[master_align:slave_align], held otherwise), lane i = "
+                    "bits [i*dw_from, (i+1)*dw_from); read data taken from the lane of the read address; upper address bits forwarded",
+             min_sites=6)
+    fxu = _fx(ctx, AL, "AXILiteUpConverter", False)
+    fail_closed(ctx, fxu, "AXILiteUpConverter")
+    for tgt, src, ch in (("slave.w.data[", "master.w.data", "aw"), ("slave.w.strb[", "master.w.strb", "aw")):
+        ds = [a for a in fxu.find(domain="comb") if a.t.startswith(tgt) and a.v == src]
+        ok = len(ds) == 1 and len(ds[0].guards) == 1 and ds[0].guards[0][1]
+        sel = None
+        if ok:
+            g = ds[0].guards[0][0]
+            ok = isinstance(g, ast.Compare) and len(g.ops) == 1 and isinstance(g.ops[0], ast.Eq) and bool(ds[0].loops) and \
+                norm(g.comparators[0]) == ds[0].loops[-1][0]
+            sel = norm(g.left) if ok else None
+        dep = q.stage_depths(fxu, sel, ["master.aw.addr", "master.ar.addr", "master.w", "master.r"]) if sel else {}
+        ok = ok and 0 in dep.get("master.aw.addr", set()) and "master.ar.addr" not in dep
+        ctx.ob("B11", AL, "AXILiteUpConverter", f"{tgt}lane] <- {src} on the lane of the write address of this cycle", ok,
+               "" if ok else f"lane selector `{sel}` reaches master.aw.addr through {sorted(dep.get('master.aw.addr', []))} register stage(s) "
+                             f"(other inputs: {sorted(k for k in dep if k != 'master.aw.addr')}): a slave that takes W in the cycle AW is "
+                             f"presented gets the data on the previous write's lane", ds[0].line if ds else 0)
+    rd = [a for a in fxu.find(domain="comb", target="master.r.data")]
+    ok = len(rd) == 1 and len(rd[0].guards) == 1 and rd[0].v.startswith("slave.r.data[")
+    if ok:
+        g = rd[0].guards[0][0]
+        sel = norm(g.left) if isinstance(g, ast.Compare) else None
+        dep = q.stage_depths(fxu, sel, ["master.aw.addr", "master.ar.addr"]) if sel else {}
+        ok = bool(dep.get("master.ar.addr")) and min(dep["master.ar.addr"]) <= 1 and "master.aw.addr" not in dep
+    ctx.ob("B11", AL, "AXILiteUpConverter", "read data taken from the lane of the read address", ok, "" if ok else f"{[(a.v, a.gtext()) for a in rd]}",
+           rd[0].line if rd else 0)
+    lanes = [a for a in fxu.find(domain="comb") if a.loops and (a.t.startswith(("slave.w.data[", "slave.w.strb[")) or a.v.startswith("slave.r.data["))]
+    for a in lanes:
+        sl = a.target if a.t.startswith("slave.w.") else a.value
+        strb = "strb" in norm(sl)
+        i_ = a.loops[-1][0]
+        bad = None
+        if not (isinstance(sl, ast.Subscript) and isinstance(sl.slice, ast.Slice) and sl.slice.lower is not None and sl.slice.upper is not None):
+            bad = f"{norm(sl)} is not a [lo:hi] slice"
+        else:
+            import copy as _copy
+            from .. import pyconst as _pc
+
+            class _R(ast.NodeTransformer):          # resolve the per-lane locals (data_from, strb_to, ...) down to i and dw_from
+                def visit_Name(self, x):
+                    d = fxu.localdefs.get(x.id)
+                    if d is not None and x.id not in ("dw_from", "dw_to", "ratio", i_):
+                        return self.visit(_copy.deepcopy(d))
+                    return x
+            lo_e, hi_e = _R().visit(_copy.deepcopy(sl.slice.lower)), _R().visit(_copy.deepcopy(sl.slice.upper))
+            for dwf in (8, 16, 32):
+                for k in (0, 1, 3):
+                    unit = dwf // 8 if strb else dwf
+                    try:
+                        lo, hi = _pc.Interp({"dw_from": dwf, i_: k}).ev(lo_e), _pc.Interp({"dw_from": dwf, i_: k}).ev(hi_e)
+                    except Exception as ex:     # noqa
+                        lo, hi = f"? ({ex})", None
+                    if (lo, hi) != (k * unit, (k + 1) * unit) and bad is None:
+                        bad = f"dw_from={dwf}, lane {k}: [{lo}:{hi}], expected [{k * unit}:{(k + 1) * unit}]"
+        ctx.ob("B11", AL, "AXILiteUpConverter", f"lane i of {norm(sl).split('[')[0]} = [i*w : (i+1)*w], w = dw_from{'//8' if strb else ''}", bad is None,
+               bad or "", a.line)
+    for chn in ("aw", "ar"):
+        ds = [a for a in fxu.find(domain="comb") if a.t == f"slave.{chn}.addr[slave_align:]"]
+        ok = len(ds) == 1 and ds[0].v == f"master.{chn}.addr[slave_align:]" and not ds[0].guards
+        ctx.ob("B11", AL, "AXILiteUpConverter", f"{chn}: wide-word address bits forwarded", ok, "" if ok else f"{[(a.t, a.v) for a in ds]}", ds[0].line if ds else 0)
     # ================================================================ B10
     from .c10 import burst2beat_widths
     burst2beat_widths(ctx, "B10")
